@@ -469,6 +469,17 @@ func (s *shrinker) same(tp []uint64) bool {
 
 type failure struct{ Class, Locator, Detail string }
 
+func resourceClass(c string) bool {
+	return c == "livelock" || c == "process-killed" || c == "alloc-over-budget"
+}
+
+func siteOf(locator string) string {
+	if i := strings.Index(locator, "site="); i >= 0 {
+		return strings.Fields(locator[i+5:] + " ")[0]
+	}
+	return ""
+}
+
 func failuresOf(r *RunResult) []failure {
 	if r.Class == "" {
 		return nil
@@ -804,6 +815,15 @@ func main() {
 	pick := func(r *RunResult, class, locator string) (failure, bool) {
 		for _, f := range failuresOf(r) {
 			if f.Class == class && f.Locator == locator {
+				return f, true
+			}
+		}
+		// An allocation bomb either exhausts the address-space cap at once
+		// (process-killed) or keeps the call busy clearing gigabytes (livelock),
+		// depending on how loaded the machine is: the same defect at the same
+		// call site. Accept one for the other.
+		for _, f := range failuresOf(r) {
+			if resourceClass(f.Class) && resourceClass(class) && siteOf(f.Locator) != "" && siteOf(f.Locator) == siteOf(locator) {
 				return f, true
 			}
 		}
